@@ -284,9 +284,30 @@ def run(ctx):
                    "verify_circuit (verify_fri_circuit directly when the schedule exceeds the field's two-adicity), answer = which shape check fired",
            "samples": samples[:6], "input_distribution": hist,
            "traces_validated_against_impl": tot["lines"], "disagreements_checked": tot["disagreements"],
-           "campaign": campaign, "corpus_notes": corpus_notes, "model_flags": model_flags,
+           "campaign": compress_campaign(campaign), "corpus_notes": corpus_notes, "model_flags": model_flags,
            "known_not_reproduced": []}
     return violations, cov
+
+
+def compress_campaign(campaign):
+    """Per-setup records carry two detailed histograms (`kinds`, `shape_kinds`); with several hundred setups they make the
+    evidence file several MB. Keep the per-setup scalars, sum the histograms over all setups."""
+    tot_k, tot_s, rows = {}, {}, []
+
+    def add(dst, h):
+        if isinstance(h, dict):
+            for k, v in h.items():
+                if isinstance(v, (int, float)):
+                    dst[k] = dst.get(k, 0) + v
+                else:
+                    dst[k] = dst.get(k, 0) + 1
+        elif isinstance(h, list):
+            for k in h:
+                dst[str(k)] = dst.get(str(k), 0) + 1
+    for c in campaign:
+        add(tot_k, c.get("kinds")); add(tot_s, c.get("shape_kinds"))
+        rows.append({k: v for k, v in c.items() if k not in ("kinds", "shape_kinds") and len(json.dumps(v)) < 200})
+    return {"setups": len(campaign), "per_setup": rows[:400], "kinds_total": tot_k, "shape_kinds_total": dict(sorted(tot_s.items(), key=lambda kv: -kv[1])[:300])}
 
 
 CHECK = {
